@@ -6,7 +6,6 @@ import (
 	"strings"
 	"sync"
 	"testing"
-	"testing/synctest"
 	"time"
 
 	"github.com/tsuna/gohbase"
@@ -39,11 +38,14 @@ const appExc = "com.example.ApplicationException"
 func c02Run(c c02Case) Outcome {
 	var o Outcome
 	res := inBubble(theT, func() { o = c02RunInBubble(c) })
-	if res.Deadlock != "" {
-		return viol("deadlock", "bubble deadlocked: %s", res.Deadlock)
+	if res.Deadlock != "" && !exitLeak(res.Deadlock) {
+		return viol("deadlock", "bubble deadlocked: %s\n%s", res.Deadlock, bubbleStacks(res.Stack))
 	}
 	if res.Panic != "" {
 		return viol("panic@"+topFrame(res.Stack), "%s\n%s", res.Panic, res.Stack)
+	}
+	if res.Deadlock != "" {
+		o.Labels = append(o.Labels, "goroutines_left_at_exit")
 	}
 	return o
 }
@@ -133,7 +135,7 @@ func c02RunInBubble(c c02Case) (out Outcome) {
 	go func() { wg.Wait(); close(done) }()
 	finished := waitOrHorizon(done, 10*time.Minute)
 	client.Close()
-	synctest.Wait()
+	drainClient()
 	maxInFlight, outOfOrder := 0, 0
 	cl.Lock()
 	for _, sc := range cl.Conns {
